@@ -11,7 +11,7 @@
 #include "xraylib-error-private.h"
 /* fault injection (C04 stage 4, C14, C18): when W_fail_at > 0 the W_fail_at-th allocation request made by library code from now on returns NULL
  * with errno = ENOMEM (once); 0 = off.  W_reqs counts requests, W_failed the injected failures.  Single-threaded stages only. */
-long W_fail_at = 0, W_reqs = 0, W_failed = 0;
+long W_fail_at = 0, W_reqs = 0, W_failed = 0, W_fail_spare_errors = 0;      /* spare_errors: requests made while an error object is built are never refused (random histories: the unchecked error object is a known finding of its own) */
 #define FAULT() (__atomic_add_fetch(&W_reqs, 1, __ATOMIC_RELAXED), W_fail_at > 0 && --W_fail_at == 0 ? (W_failed++, errno = ENOMEM, 1) : 0)
 long W_live = 0, W_allocs = 0, W_files = 0, W_fopens = 0, W_setlocale = 0, W_over = 0, W_sets = 0, W_sets_null = 0;
 void *__real_malloc(size_t); void __real_free(void *); void *__real_realloc(void *, size_t); void *__real_calloc(size_t, size_t);
@@ -32,7 +32,9 @@ char *__wrap_setlocale(int c, const char *l) { if (l) __atomic_add_fetch(&W_setl
 /* an attempt to store an error over an existing one is what C03 forbids: count it at the three places that store */
 void __wrap_xrl_set_error_literal(xrl_error **err, xrl_error_code code, const char *msg) {
   __atomic_add_fetch(&W_sets, 1, __ATOMIC_RELAXED); if (!err) __atomic_add_fetch(&W_sets_null, 1, __ATOMIC_RELAXED); if (err && *err) __atomic_add_fetch(&W_over, 1, __ATOMIC_RELAXED);
+  long saved = W_fail_at; if (W_fail_spare_errors) W_fail_at = 0;
   __real_xrl_set_error_literal(err, code, msg);
+  if (W_fail_spare_errors) W_fail_at = saved;
 }
 /* the variadic setter is forwarded untouched (gcc's __builtin_apply re-issues the call with the caller's registers and stack arguments),
  * so the library's own formatting path -- xrl_error_new_valist / xrl_strdup_vprintf -- is what every harness executes */
@@ -41,7 +43,9 @@ void __wrap_xrl_set_error(xrl_error **err, xrl_error_code code, const char *fmt,
   void *args = __builtin_apply_args();
   __atomic_add_fetch(&W_sets, 1, __ATOMIC_RELAXED); if (!err) __atomic_add_fetch(&W_sets_null, 1, __ATOMIC_RELAXED); if (err && *err) __atomic_add_fetch(&W_over, 1, __ATOMIC_RELAXED);
   (void)code; (void)fmt;
+  long saved = W_fail_at; if (W_fail_spare_errors) W_fail_at = 0;
   __builtin_apply((void (*)())__real_xrl_set_error, args, 256);
+  if (W_fail_spare_errors) W_fail_at = saved;
 }
 void __wrap_xrl_propagate_error(xrl_error **dest, xrl_error *src) {
   if (dest && *dest) __atomic_add_fetch(&W_over, 1, __ATOMIC_RELAXED);
